@@ -114,7 +114,7 @@ META = {
     "trusted_base": [
         "specs/C08/sem.h cv_wait/cv_wait_until/cv_notify_one/cv_size: contract of detail::condition_variable as seen by a "
         "client that holds the internal lock (enqueue under the lock, lock released only inside the suspension, "
-        "wait_until returns signaled|timeout only, notify_one dequeues the front waiter and returns 'still non-empty'); "
+        "wait and wait_until return signaled (a notifier dequeued us) or timeout (entry still queued, erased), notify_one dequeues the front waiter and returns 'still non-empty' -- exactly what C07's units cv.wait / cv.wait_until / cv.notify_one prove); "
         "the cv implementation itself is the subject of C07",
         "vx/prelude/monitor.h: std::unique_lock / spinlock modelled as a ghost 'held' bit (A-LOCK: mutual exclusion trusted)",
         "ghost counters bounded by 10^9 (RELY_RANGE) so that ghost arithmetic cannot overflow",
